@@ -112,6 +112,15 @@ func Reach(id string)        {}
 func Note(key, value string) { fmt.Printf("VERIF-NOTE %s=%q\n", key, value) }
 func Symbolic() bool         { return false }
 
+// NoteBytes records a byte string (hex) for translator validation.
+func NoteBytes(key string, b []byte) {
+	var sb strings.Builder
+	for _, c := range b {
+		fmt.Fprintf(&sb, "%02x ", c)
+	}
+	fmt.Printf("VERIF-NOTE %s=%q\n", key, sb.String())
+}
+
 // Diag returns the diagnostics emitted so far (log lines; stdout lines of
 // the assembler are not captured natively).
 func Diag() []string {
